@@ -121,9 +121,7 @@ class Gen:
             # a line comment whose last non-blank character is a backslash, followed by blanks: NOT a continuation
             self.hit("cmt:cpp-backslash-blank")
             self.emit(depth, ["// see C:\\tmp\\" + r.choice([" ", "  ", "\t", " \t "])], "cmt")
-            # ISO C does not splice here, gcc/clang (and the specification lexer) do: keep the next line empty so that
-            # both readings give the same tokens
-            self.emit(depth, [], "blank")
+            # ISO C does not splice here (gcc/clang do, with a warning); the specification lexer follows ISO for line comments
         elif k < 0.5:
             self.hit("cmt:cpp")
             self.emit(depth, ["// " + r.choice(["note", "TODO: x", "a  b", "x = y;", "end", "été ünï"])], "cmt")
